@@ -146,6 +146,17 @@ type vc6Run struct {
 	Pace  int       `json:"pace"`
 	Rank  int       `json:"rank_size"` // 0: leave the writer's own pop rank
 	Seed  uint64    `json:"pace_seed"`
+	// Hot (optional): the history is too long to be stored in a report; it is (re)generated from this
+	// description by vc6HotHist and Hist is left out of the replay.
+	Hot *vc6Hot `json:"hot,omitempty"`
+}
+
+// vc6Hot describes a history with very hot addresses (see vc6HotHist).
+type vc6Hot struct {
+	Seed   uint64 `json:"seed"`
+	N      int    `json:"pushes_per_hot_address"`
+	NHot   int    `json:"hot_addresses"`
+	Others int    `json:"other_addresses"`
 }
 
 type vc6Obs struct {
@@ -173,6 +184,12 @@ func vc6Exec(r vc6Run, wantFiles bool) (obs []vc6Obs, files *vc6Files, infra str
 		return nil, nil, "mkdir: " + err.Error()
 	}
 	defer os.RemoveAll(dir)
+	defer func() {
+		// a panic of the writer in the pushing goroutine is an observation of this history, not the end of the run
+		if x := recover(); x != nil {
+			obs, files, infra = nil, nil, fmt.Sprintf("PANIC in Push: %v", x)
+		}
+	}()
 	w, err := NewGsfaWriter(filepath.Join(dir, "idx"), indexmeta.Meta{}, 0, vc6Root, indexes.NetworkMainnet, filepath.Join(dir, "tmp"))
 	if err != nil {
 		return nil, nil, "NewGsfaWriter: " + err.Error()
@@ -210,7 +227,14 @@ func vc6Exec(r vc6Run, wantFiles bool) (obs []vc6Obs, files *vc6Files, infra str
 		}
 	}
 	done := make(chan error, 1)
-	go func() { done <- w.Close() }()
+	go func() {
+		defer func() {
+			if x := recover(); x != nil {
+				done <- fmt.Errorf("PANIC: %v", x)
+			}
+		}()
+		done <- w.Close()
+	}()
 	select {
 	case err := <-done:
 		if err != nil {
@@ -635,7 +659,7 @@ func TestVerif_C06(t *testing.T) {
 	if mode == "shrunk" {
 		rule += "exhaustive address sequences (<=3 addresses up to renaming, <=8 pushes) under the measured shrunk thresholds x GOMAXPROCS/pacing passes, random multi-address histories, pop-rank scenarios; non-trivial = at least one full batch or one periodic flush"
 	} else {
-		rule += "real thresholds, per-address counts around the batch size and multiples; non-trivial = at least one full batch"
+		rule += "real thresholds, per-address counts around the batch size and multiples, and one history with a very hot address (more incompressible entries than one record of the 3-byte size fields can hold, a handful of other addresses interleaved; compared by the Go oracle only, not part of the Coq case files); non-trivial = at least one full batch"
 	}
 	rep := vh.NewReport("C06", part, rule)
 	defer func() {
@@ -690,6 +714,9 @@ func TestVerif_C06(t *testing.T) {
 			t.Fatalf("setup failed: cannot read replay %s", rp)
 		}
 		for _, f := range doc.Failures {
+			if f.Replay.Part == part && f.Replay.Hot != nil {
+				f.Replay.Hist = vc6HotHist(*f.Replay.Hot, itemsPerBatch)
+			}
 			if f.Replay.Part == part && len(f.Replay.Hist) > 0 {
 				jobs = append(jobs, []vc6Job{{run: f.Replay, files: len(f.Replay.Hist) <= 40, nontriv: true, category: "replay"}})
 				passProcs = append([]int{f.Replay.Procs}, passProcs...)
@@ -763,8 +790,12 @@ func TestVerif_C06(t *testing.T) {
 
 func vc6Do(rep *vh.Report, cst vc6Consts, j vc6Job, small, big *vh.CasesFile, mu *sync.Mutex, nXR *int, maxXR int) {
 	obs, files, infra := vc6Exec(j.run, j.files)
+	rp := j.run // what goes into a replay file
+	if rp.Hot != nil {
+		rp.Hist = nil // regenerated from rp.Hot
+	}
 	if infra != "" {
-		rep.Fail("writer-error", infra+" on "+vc6HistString(j.run.Hist), j.run)
+		rep.Fail("writer-error", infra+" on "+vc6HistString(j.run.Hist), rp)
 		return
 	}
 	exp := vc6Expected(j.run.Hist)
@@ -804,7 +835,7 @@ func vc6Do(rep *vh.Report, cst vc6Consts, j vc6Job, small, big *vh.CasesFile, mu
 		}
 	}
 	if len(obs) == 1 && obs[0].Key == -1 {
-		rep.Fail("close-hang", "Close did not return within 60 s: "+vc6HistString(j.run.Hist), j.run)
+		rep.Fail("close-hang", "Close did not return within 60 s: "+vc6HistString(j.run.Hist), rp)
 		return
 	}
 	bad := map[string]string{}
@@ -841,7 +872,7 @@ func vc6Do(rep *vh.Report, cst vc6Consts, j vc6Job, small, big *vh.CasesFile, mu
 	}
 	for sig, d := range bad {
 		rep.Fail(sig, fmt.Sprintf("%s; history: %s; constants batch=%d chan=%d parked=%d flush(slot%%%d,keys>%d,len<%d) rank=%d gomaxprocs=%d pace=%d",
-			d, vc6HistString(j.run.Hist), cst.B, cst.C, cst.P, cst.FE, cst.FM, cst.FS, vc6Rank(cst, j.run), j.run.Procs, j.run.Pace), j.run)
+			d, vc6HistString(j.run.Hist), cst.B, cst.C, cst.P, cst.FE, cst.FM, cst.FS, vc6Rank(cst, j.run), j.run.Procs, j.run.Pace), rp)
 	}
 	if len(j.run.Hist) <= 3 {
 		rep.Sample(map[string]interface{}{"history": vc6HistString(j.run.Hist), "observed": fmt.Sprint(obs)})
@@ -850,6 +881,12 @@ func vc6Do(rep *vh.Report, cst vc6Consts, j vc6Job, small, big *vh.CasesFile, mu
 	total := 0
 	for _, es := range exp {
 		total += len(es)
+	}
+	if j.run.Hot != nil || total > vc6MaxCoqEntries {
+		// the Go oracle above has compared every field of every entry; a history of this length is not given to coqc
+		rep.Count("oracle-only (history too long for the Coq run)")
+		rep.CountN("oracle-only entries compared", total)
+		return
 	}
 	if total <= 80 {
 		if !vh.Thorough() && j.category == "exhaustive" && len(j.run.Hist) >= 7 && (len(j.run.Hist)*7+int(j.run.Seed))%5 != 0 {
@@ -1058,6 +1095,23 @@ func vc6RealJobs(rng *vh.Rng, c vc6Consts, part string) [][]vc6Job {
 			passes[i%3] = append(passes[i%3], mk(h, 0, fmt.Sprintf("record-length-%d", target)))
 		}
 	}
+	// "any per-address count": one very hot address (more entries than one record of the pointer format can
+	// ever hold, see vc6HotCount) with incompressible 64-bit locations and slots, a handful of other addresses
+	// interleaved, on the unmodified constants. Close must succeed and every address must read back exactly its
+	// entries, newest first. Checked by the Go oracle only (not part of the Coq case files).
+	{
+		hs := vc6Hot{Seed: rng.U64() % 100000, N: vc6HotCount(), NHot: 1, Others: 5}
+		j := mk(vc6HotHist(hs, B), 0, "hot-address")
+		j.run.Hot, j.nontriv = &hs, true
+		passes[1] = append(passes[1], j)
+		if vh.Thorough() {
+			// two hot addresses taking turns, the pusher yielding to the background writer after every push
+			hs2 := vc6Hot{Seed: rng.U64() % 100000, N: vc6HotCount(), NHot: 2, Others: 3}
+			j2 := mk(vc6HotHist(hs2, B), 1, "hot-address")
+			j2.run.Hot, j2.nontriv = &hs2, true
+			passes[2] = append(passes[2], j2)
+		}
+	}
 	// enough distinct addresses to trigger the periodic partial flush at the real thresholds
 	if vh.Thorough() && c.FM <= 200000 {
 		var h []vc6Push
@@ -1079,6 +1133,62 @@ func vc6RealJobs(rng *vh.Rng, c vc6Consts, part string) [][]vc6Job {
 		passes[1] = append(passes[1], mk(h, 0, "periodic-flush-real"))
 	}
 	return passes
+}
+
+// vc6MaxCoqEntries: histories with more entries than this are checked by the Go oracle only.
+const vc6MaxCoqEntries = 100_000
+
+// vc6RecordSizeLimit is the largest record the on-disk format can point at: record sizes are stored in 3 bytes
+// (uint24) in the pubkey index and in the 9-byte previous-record pointer.
+const vc6RecordSizeLimit = 1<<24 - 1
+
+// vc6HotCount: a per-address count whose entries cannot fit ONE addressable record, whatever the compressor
+// does: the entries built by vc6HotHist carry 3 x 63 random bits, i.e. at least 24 bytes of entropy each.
+// The property quantifies over any per-address count; a writer is free to lay the entries out as it likes, but
+// it must stay within its own pointer format.
+func vc6HotCount() int { return vc6RecordSizeLimit/24 + 1 + 1000 }
+
+// vc6HotHist builds a history in which NHot addresses (numbers 1..NHot) take part in N pushes each, with
+// pseudo-random 64-bit offsets, sizes and slots (top bit set: every uvarint is 10 bytes wide, the entries do
+// not compress), while a handful of other addresses (numbers NHot+1 ..) show up now and then: named together
+// with a hot address, in single pushes of their own, and one of them in a run of B+1 pushes of its own so that
+// a full batch of ANOTHER address reaches the background writer while the hot ones are busy.
+func vc6HotHist(hs vc6Hot, B int) []vc6Push {
+	rng := vh.NewRng(hs.Seed*2654435761 + 99)
+	if hs.NHot < 1 {
+		hs.NHot = 1
+	}
+	total := hs.N * hs.NHot
+	h := make([]vc6Push, 0, total+B+64)
+	id := 0
+	runner := hs.NHot + 1 // the other address that crosses a batch boundary on its own
+	every := total/(7*(hs.Others+1)) + 1
+	hot := 1
+	left := 0
+	for i := 0; i < total; i++ {
+		if left == 0 { // the hot addresses take turns in runs of 1..3000 pushes
+			hot = 1 + (hot % hs.NHot)
+			left = 1 + rng.Intn(3000)
+		}
+		left--
+		id++
+		keys := []int{hot}
+		if hs.Others > 0 && i%every == every/2 {
+			keys = append(keys, hs.NHot+1+(i/every)%hs.Others)
+		}
+		h = append(h, vc6Push{Slot: rng.U64() | 1<<63, Keys: keys, ID: id, Off: rng.U64() | 1<<63, Size: rng.U64() | 1<<63})
+		if hs.Others > 0 && i == total/2 {
+			for k := 0; k < B+1; k++ {
+				id++
+				h = append(h, vc6P(id, uint64(3+k/300), []int{runner}))
+			}
+		}
+		if hs.Others > 1 && i%(3*every) == every {
+			id++
+			h = append(h, vc6P(id, uint64(1+i/1000), []int{hs.NHot + 1 + rng.Intn(hs.Others)}))
+		}
+	}
+	return h
 }
 
 // vc6DirectedRecord searches entry values such that the record written at Close for one address
